@@ -490,6 +490,7 @@ def kdiff(res, lean, impl_bin, lines, oracle=None, classify=None, unspecified=No
         kind = io.split(' ', 1)[0]
         if len(kind) > 6 and re.fullmatch(r'[0-9a-f]+', kind): kind = 'hex'
         if '=' in kind: kind = kind.split('=')[0] + '='
+        if ',' in kind: kind = '..,' + kind.split(',')[-1]
         res.count(tag + 'out:' + kind[:24])
         if classify:
             c = classify(line, io)
